@@ -1584,6 +1584,13 @@ where
     ) -> Result<()> {
         match state {
             State::Suspect => {
+                // Our identity is already down (declared by the cluster or
+                // by leave_cluster). Refuting the suspicion would only make
+                // a dead identity look alive to whoever is probing it
+                if self.connection_state == ConnectionState::Undead {
+                    return Ok(());
+                }
+
                 let increase_incarnation = match self.incarnation.cmp(&incarnation) {
                     // This can happen when a member received an update about
                     // someone else suspecting us but hasn't received our
